@@ -152,12 +152,23 @@ func hValue(r *fw.Rng) *gnmi.TypedValue {
 
 func hExtensions(r *fw.Rng) []*gnmi_ext.Extension {
 	var out []*gnmi_ext.Extension
-	for i := r.Intn(3); i > 0 && r.Chance(1, 3); i-- {
+	for i := r.Intn(3); i > 0 && r.Chance(1, 2); i-- {
 		switch r.Intn(5) {
 		case 0:
 			ids := []gnmi_ext.ExtensionID{configapi.TransactionStrategyExtensionID, configapi.TargetVersionOverridesID, configapi.TransactionInfoExtensionID, 0, 1, 100, 101, 102, 111, 999}
 			var msg []byte
-			switch r.Intn(4) {
+			id := ids[r.Intn(len(ids))]
+			kind := r.Intn(4)
+			if r.Chance(3, 4) {
+				// mostly the registered id that matches the payload, so that the payload is really decoded
+				switch kind {
+				case 0:
+					id = configapi.TransactionStrategyExtensionID
+				case 1:
+					id = configapi.TargetVersionOverridesID
+				}
+			}
+			switch kind {
 			case 0:
 				msg, _ = (&configapi.TransactionStrategy{Synchronicity: configapi.TransactionStrategy_Synchronicity(r.Intn(3)), Isolation: configapi.TransactionStrategy_Isolation(r.Intn(3))}).Marshal()
 			case 1:
@@ -173,7 +184,7 @@ func hExtensions(r *fw.Rng) []*gnmi_ext.Extension {
 			case 2:
 				msg = []byte(hName(r) + "\xff\x01\x02")
 			}
-			out = append(out, &gnmi_ext.Extension{Ext: &gnmi_ext.Extension_RegisteredExt{RegisteredExt: &gnmi_ext.RegisteredExtension{Id: ids[r.Intn(len(ids))], Msg: msg}}})
+			out = append(out, &gnmi_ext.Extension{Ext: &gnmi_ext.Extension_RegisteredExt{RegisteredExt: &gnmi_ext.RegisteredExtension{Id: id, Msg: msg}}})
 		case 1:
 			out = append(out, &gnmi_ext.Extension{Ext: &gnmi_ext.Extension_MasterArbitration{MasterArbitration: &gnmi_ext.MasterArbitration{}}})
 		case 2:
